@@ -61,6 +61,10 @@ CLAIMED = {
          "Bounded model checking of the option semantics (conjunction of criteria, -v as complement, six paired modes, kept/discarded partition, every occurrence of repeatable edits, frame condition, exactly one output file per record, mates at the same rank), with replay of every model case on the real binaries and library entry points, and TLC validation of random traces. Quick: 2.9 k command lines, 6.4 k implementation executions; thorough: 18 k command lines, 99 k executions.",
          "Regex and expression semantics are tabulated atoms. Taxonomy options (C14), approximate patterns, -l 1 and -c 1 (default values), and --cut negative-from arithmetic are outside the decided clauses. The discarded / unidentified side-file exit races are covered by repeated runs of a 2 %/run class. A crashed process is re-run and counted, not alarmed, when the crash does not repeat.",
          "DESIGN.md 5 C16"),
+ "C01": ("TLC model checking of Chunker.tla (ReadSeqFileChunk and the three backward splitters, implementation-shaped) against the abstract contract of a chunk reader, for every buffer size >= 2, on files rendered from record descriptors by TextFasta/TextFastq/TextFlat; every generated file x every buffer size x 4 reader kinds is replayed on the real chunk reader, chunk parsers, readers and kseq; runs on files larger than the 1 MiB / 128 MiB production buffers, including the obiconvert binary (file, stdin, .gz; 1-8 workers), are validated by ChunkerTrace",
+         "All files of <=2 (thorough <=3; simulated <=6) records over adversarial shapes x every buffer size 2..len+1 are model-checked (whole records, orders 0..k-1, concatenation equals the file, termination; the 1-byte-buffer livelock is shown by a negative run). The same files, plus 880 (thorough 2 068) generated ones, are replayed on the real code, with a verdict from the contract and record equality only. For production constants, files are built so the 2^20-th byte falls on every tag class (thorough: every byte) of a record, then read by the library and by obiconvert and accepted by TLC only if the records and order are exact.",
+         "Trusted: TLC, the harness line decoder for obiconvert output, io.ReadFull semantics. Bounded: file shapes the generators express; flat-file 128 MiB constant in thorough only. Parser-worker races exercised, not gated. Order is decided on batch numbers (command output order is checked strictly).",
+         "DESIGN.md 5 C01"),
 }
 
 NOT_YET = "check not built yet in this round (planned, see DESIGN.md 10); not claimed"
